@@ -753,6 +753,15 @@ def rule_bits(ctx, rep, rid):
             c = ir.const_of(g, s.args[0])
             if c is not None and c & B.REMOVED:
                 removed_setters.add(g.name)
+    # REMOVED / REMOVAL_OWNER are sticky: the only read-modify-write that edits flag bits in place is an `or`.  An `and` (or an add/sub/xor) on
+    # node->next takes a flag back - a logically deleted node, or a bucket retired by a shrink, whose REMOVED bit is cleared has a writable
+    # next pointer again: a concurrent add links behind it, a helper's gc cmpxchg on it succeeds, after it left the chain
+    rm = [(g, e) for g in m.defined() for e in pat.accesses(g, NEXT, ("rmw",))]
+    pat.require(len(rm) >= 2, "only %d in-place flag updates of node->next found" % len(rm))
+    badrm = [(g, e) for g, e in rm if e.rop != "or"]
+    rep.check(not badrm, rid, "flags-only-set-in-place", "all %d in-place updates of node->next are `or` (flags are only ever added)" % len(rm),
+              "node->next is updated in place with `%s` in %s: a flag bit is cleared (or the pointer altered) on a node other threads may already treat as removed"
+              % (badrm[0][1].rop if badrm else "", badrm[0][0].name if badrm else ""), [e.inst.where() for g, e in badrm[:3]])
     rep.check(who <= allowed, rid, "who-rmw-next", "atomic updates of node->next only in %s" % sorted(who), "node->next atomically modified from %s" % sorted(who - allowed), sorted(who - allowed))
     rep.check(owner_setters == {"_cds_lfht_replace", "_cds_lfht_del"}, rid, "who-sets-OWNER", "REMOVAL_OWNER set only by replace and del", "REMOVAL_OWNER set by %s" % sorted(owner_setters), sorted(owner_setters))
     rep.check(removed_setters <= {"_cds_lfht_replace", "_cds_lfht_del", "remove_table_partition", "cds_lfht_node_init_deleted"} and {"_cds_lfht_replace", "_cds_lfht_del", "remove_table_partition"} <= removed_setters,
